@@ -24,9 +24,10 @@ REF = {
                     r'|[-+]?[0-9]+[eE][-+]?[0-9]+'
                     r'|[-+]?\.(?:inf|Inf|INF)'
                     r'|[-+]?\.(?:nan|NaN|NAN))$', 0),
-    # sound under-approximation of the domain of SafeConstructor.construct_yaml_float (no underscores, no ':')
-    'float_ctor_domain': (r'^[-+]?(?:\.[iI][nN][fF]|\.[nN][aA][nN]'
-                          r'|[-+]?(?:[0-9]+(?:\.[0-9]*)?|\.[0-9]+)(?:[eE][-+]?[0-9]+)?)$', 0),
+    # sound under-approximation of the domain of SafeConstructor.construct_yaml_float (no ':'): underscores are removed
+    # first, float() accepts any Unicode decimal digit
+    'float_ctor_domain': (r'^_*[-+]?_*(?:\._*[iI]_*[nN]_*[fF]_*|\._*[nN]_*[aA]_*[nN]_*'
+                          r'|[-+]?_*(?:\d[\d_]*(?:\.[\d_]*)?|\._*\d[\d_]*)(?:[eE]_*[-+]?_*\d[\d_]*)?)$', 0),
     # what SafeRepresenter.represent_float writes: repr(float).lower() with '.0' before a bare exponent
     'float_repr': (r'^(?:-?[0-9]+\.[0-9]+(?:e[-+][0-9]+)?|\.nan|-?\.inf)$', 0),
 }
